@@ -75,6 +75,19 @@ func c09Universe() []univ.Val {
 	add("drop_m_a", ref.NewMap("a", ref.Int(1)), univ.Drop{V: map[string]any{"a": 1}})
 	add("l_of_drops", univ.L(ref.Int(1), "a"), []any{univ.Drop{V: 1}, &univ.PDrop{V: "a"}})
 	add("l_123_u8", univ.L(ref.Int(1), ref.Int(2), ref.Int(3)), []uint8{1, 2, 3})
+	// numbers that are the code points or the decimal spellings of the strings and keys around them ('a' = 97,
+	// '1' = 49, U+00E9 = 233): a value of one kind never equals, is contained in or keys a value of another kind
+	for _, n := range []int64{97, 49, 233} {
+		s := strconv.FormatInt(n, 10)
+		add("int_"+s, ref.Int(n), int(n))
+		add("uint8_"+s, ref.Int(n), uint8(n))
+		add("int32_"+s, ref.Int(n), int32(n))
+		add("float64_"+s, ref.Float(float64(n)), float64(n))
+	}
+	add("s_97", "97", "97")
+	add("m_e_acute", ref.NewMap("é", ref.Int(1), "97", ref.Int(2)), map[string]any{"é": 1, "97": 2})
+	add("l_s_a1e", univ.L("a", "1", "é", "97"), []string{"a", "1", "é", "97"})
+	add("l_i_97", univ.L(ref.Int(97), ref.Int(49)), []int{97, 49})
 	return u
 }
 
